@@ -24,7 +24,8 @@ EXPLANATION = (
     " (R14 = C05.R11) RESUME label leaves every active call, cutting the VM stacks back to what the outermost call recorded."
     " (R15 = C12.R11) what the casting emitter cannot convert (arrays, records) the checker lets through by value only for a parameter of the same type - evaluated on every pair."
     " (R16) to_str_unchecked, which panics on anything but a string, is applied only to the arguments of a built-in call (context()[i], typed by the built-in's lint()), never to a variable looked up by name."
-    " (R17 = C03.R4) the call templates write back exactly the list of by-reference arguments they stashed, in the stashing order: nothing stays on the by-reference stack for the enclosing call to pop into a variable of another type.")
+    " (R17 = C03.R4) the call templates write back exactly the list of by-reference arguments they stashed, in the stashing order: nothing stays on the by-reference stack for the enclosing call to pop into a variable of another type."
+    " (R18 = C02.R6) on every emission path of the construct templates each reachable jump targets a label that is emitted exactly once: the generator's label resolver does not panic on a missing label.")
 NOT_DECIDED = ["panic-freedom in general (arithmetic overflow in the debug profile, stack depth, panics inside std)"]
 
 PCL = labels.PCL
@@ -650,5 +651,9 @@ def run(ctx):
     # (a copy left behind is popped by the enclosing call into a variable of another type: the VM panics)
     from . import c03
     c03.r4_activation_pairing(ctx, "C08.R17")
+    # every jump the templates emit has its label emitted on the same path: a label that is missing makes the label
+    # resolver of the generator panic on a program the checker accepted
+    from . import c02
+    c02.r6_template_reachability(ctx, "C08.R18")
     from . import panics
     panics.r_audit(ctx, "C08.R6", scope="backend")
